@@ -60,6 +60,12 @@ def _validate(exe, work, fens_path, seed, batch, tag, chunk_base=0):
             chunks[cur].append(vlib.struct_to_fen(x["pos"]))
     matched, results, rej = vlib.validate_trace("EvalTrace", "EvalTrace.cfg", p, lambda e: e["ev"] == "new", timeout=3000)
     viol = []
+    drift = []
+    for r in results:
+        for pr in r.prints:
+            if '"DRIFT"' in pr:
+                drift.append(pr[:300])
+    _validate.drift += drift
     for rj in rej:
         names = rj["failed"]
         harness_bug = [n for n in names if n[0].startswith("H")]
@@ -77,9 +83,13 @@ def _validate(exe, work, fens_path, seed, batch, tag, chunk_base=0):
     return p, matched, results, viol
 
 
+_validate.drift = []
+
+
 def run(prop, tier, seed):
     T = TIERS[tier]
     R = vlib.Result(prop, tier, seed)
+    _validate.drift = []
     exe = vlib.build_harness()
     work = vlib.workdir("eval")
     try:
@@ -128,6 +138,13 @@ def run(prop, tier, seed):
         R.coverage["positions"] = positions
         R.coverage["evaluations"] = positions * 4
         R.coverage["events_matched"] = quads
+        R.coverage["evaluation_model"] = {"module": "EvalFn.tla (transcription of src/eval.rs)", "values_compared": quads,
+                                          "spec_drift": _validate.drift[:5], "drift_count": len(_validate.drift)}
+        if _validate.drift:
+            R.notes.append("SPEC-DRIFT (no verdict): %d evaluations differ from EvalFn.tla, e.g. %s" % (len(_validate.drift), _validate.drift[0]))
+            log("[eval] SPEC-DRIFT: %d evaluations differ from EvalFn.tla; first: %s" % (len(_validate.drift), _validate.drift[0]))
+        else:
+            log("[eval] every recorded value equals EvalFn.tla (the transcribed evaluation)")
         e = json.loads(open(os.path.join(work, "eval_0.ndjson")).read().splitlines()[1])
         R.sample({"v": e["v"], "vswap": e["vswap"], "vmirror": e["vmirror"], "vagain": e["vagain"], "pos": e["pos"]})
         log("[eval] %d positions, %d events matched" % (positions, quads))
